@@ -67,6 +67,8 @@ def type_branches(fn: ast.AST, var_names=None) -> Dict[str, List[ast.stmt]]:
     out: Dict[str, List[ast.stmt]] = {}
 
     def names_of(test) -> Optional[Set[str]]:
+        if isinstance(test, ast.Compare) and len(test.ops) == 1 and isinstance(test.ops[0], ast.Eq) and isinstance(test.left, ast.Constant) and isinstance(test.comparators[0], (ast.Name, ast.Subscript, ast.Attribute)):
+            test = ast.Compare(left=test.comparators[0], ops=test.ops, comparators=[test.left])  # "X" == t
         if isinstance(test, ast.Compare) and len(test.ops) == 1 and isinstance(test.left, (ast.Name, ast.Subscript, ast.Attribute)):
             if var_names is not None and not (isinstance(test.left, ast.Name) and test.left.id in var_names):
                 return None
@@ -85,13 +87,20 @@ def type_branches(fn: ast.AST, var_names=None) -> Dict[str, List[ast.stmt]]:
     def visit(stmts, active: Optional[Set[str]]):
         for st in stmts:
             if isinstance(st, ast.If):
-                ns = names_of(st.test)
+                test, body, orelse = st.test, st.body, st.orelse
+                if isinstance(test, ast.UnaryOp) and isinstance(test.op, ast.Not):
+                    test, body, orelse = test.operand, st.orelse, st.body  # `if not (t == "X"): A else: B`
+                elif isinstance(test, ast.Compare) and len(test.ops) == 1 and isinstance(test.ops[0], (ast.NotEq, ast.NotIn)):
+                    test = ast.Compare(left=test.left, ops=[ast.Eq() if isinstance(test.ops[0], ast.NotEq) else ast.In()], comparators=test.comparators)
+                    body, orelse = st.orelse, st.body
+                ns = names_of(test)
                 if ns is not None:
                     sub = ns if active is None else (ns & active)
                     for n in sub:
                         out.setdefault(n, [])
-                    visit(st.body, sub)
-                    visit(st.orelse, active)
+                    visit(body, sub)
+                    # the other branch is reached for the remaining types only (when they are known)
+                    visit(orelse, active if active is None else (active - ns))
                     continue
             if active is not None:
                 for n in active:
@@ -337,12 +346,19 @@ def check_reserved_win(ctx, res: Result):
         if isinstance(n, ast.Assign) and len(n.targets) == 1 and isinstance(n.targets[0], ast.Subscript) and isinstance(n.targets[0].slice, ast.Constant) and n.targets[0].slice.value in ("weight", "time", "layer"):
             key = n.targets[0].slice.value
             found += 1
-            src_ok = {
-                "weight": any(isinstance(x, ast.Call) and isinstance(x.func, ast.Attribute) and x.func.attr == "get_weight" for x in ast.walk(n.value)),
-                "time": isinstance(n.value, ast.Name) and n.value.id == "time",
-                "layer": isinstance(n.value, ast.Name) and n.value.id == "layer",
-            }[key]
-            res.check(src_ok, "S-RESERVED", save.short, norm(n), key, f"the reserved key `{key}` is not written from the hyperedge's live {key}", loc(save, n))
+            from .kinds import LAYER, TIME, WEIGHT, Atom, _Top, strip_none
+
+            vk = strip_none(ctx.interp.kind_at(save, n.value))
+            want = {"weight": WEIGHT, "time": TIME, "layer": LAYER}[key]
+            if key == "weight" and any(isinstance(x, ast.Call) and isinstance(x.func, ast.Attribute) and x.func.attr == "get_weight" for x in ast.walk(n.value)):
+                st = "ok"
+            elif vk == want:
+                st = "ok"
+            elif isinstance(vk, Atom) and vk.name in ("WEIGHT", "TIME", "LAYER", "NODE", "EID", "META") or isinstance(n.value, ast.Constant):
+                st = "violation"  # positively another quantity (or a constant)
+            else:
+                st = "unknown"
+            res.add("S-RESERVED", save.short, norm(n), key, st, "" if st == "ok" else f"the reserved key `{key}` is not written from the hyperedge's live {key} (value kind {vk!r})", loc(save, n))
     if found == 0:
         raise AnalysisError("save_hypergraph: no reserved-key write recognised (idiom changed)")
 
